@@ -192,12 +192,19 @@ class TickerSpec(SeqSpec):
             if burst == "reset":
                 ops.append(["reset", rng.randrange(0, nth + 1), d2, j2])
             elif burst == "reset2":
+                # two or three Resets started together (workers are released by "go", the controller joins in)
+                ops.insert(len(ops) - 1, ["hold"])
                 ops.append(["reset", 1, d2, j2])
-                ops.append(["reset", 0 if nth < 2 else 2, d2 if rng.random() < 0.5 else d, j2 if rng.random() < 0.5 else 0])
+                if nth >= 2:
+                    ops.append(["reset", 2, d2 if rng.random() < 0.5 else d, j2 if rng.random() < 0.5 else 0])
+                ops.append(["go"])
+                ops.append(["reset", 0, d2, j2])
             elif burst == "reset+stop":
                 if not running:
                     ops.append(["reset", 0, d2, j2])
+                ops.insert(len(ops) - 1, ["hold"])
                 ops.append(["reset", 1, d2, j2])
+                ops.append(["go"])
                 ops.append(["stop", 0])
                 running = False
             else:
@@ -287,7 +294,8 @@ class TickerSpec(SeqSpec):
         evs.sort(key=lambda x: (x[0], x[1], x[2]))
         out = []
         for t, _, _, txt in evs:
-            out.append("LTick %s" % z(t))
+            if not txt.startswith("LRet"):      # a return's time is not a lower bound of anything (see XTime.v, Part 3)
+                out.append("LTick %s" % z(t))
             out.append(txt)
         return "(%d%%nat, [%s])" % (n, "; ".join(out))
 
@@ -304,8 +312,10 @@ class TickerSpec(SeqSpec):
             name = "NewJitterTicker" if c["op"] == "new" else "Reset"
             if (d <= 0 or j >= d) and c["res"] != "panic":
                 fails.append(("validation-no-panic", "%s(d=%d, jitter=%d) did not panic" % (name, d, j)))
-            if documented(d, j) and 2 * j <= MAX_I64 and c["res"] == "panic":
+            if documented(d, j) and c["res"] == "panic":
                 sig = "documented-args-panic:jitter-zero" if j == 0 else "documented-args-panic"
+                if 2 * j > MAX_I64:
+                    sig = "documented-args-panic:2*jitter-overflows-int64"
                 fails.append((sig, "%s(d=%d, jitter=%d) panicked: %s" % (name, d, j, (obs.get("aux") or {}).get("panic:%s:%d:%d" % (c["op"], d, j)))))
         ticks = [e[1] for e in obs["obs"] if e[0] == "recv"]
         cfgs = [c for c in calls if c["op"] in ("new", "reset") and c["res"] == "ok" and documented(c["d"], c["j"])]
